@@ -175,6 +175,11 @@ bool StepScript(InterpreterEnv& env)
     auto& is_p2sh = env.is_p2sh;
     auto& serror = env.serror;
 
+    // end of the current script: each script (scriptSig, scriptPubKey, redeem script) is evaluated with
+    // its own conditional nesting and its own alt stack
+    if (!vfExec.empty())
+        return set_error(serror, SCRIPT_ERR_UNBALANCED_CONDITIONAL);
+
     if (is_p2sh) {
         if (stack.empty())
             return set_error(serror, SCRIPT_ERR_EVAL_FALSE);
@@ -205,6 +210,7 @@ bool StepScript(InterpreterEnv& env)
             pend = script.end();
             env.curr_op_seq++;
             env.nOpCount = 0; // reset to avoid hitting limit prematurely!
+            env.altstack.clear();
             return true;
         }
         return set_error(serror, SCRIPT_ERR_BAD_OPCODE);
@@ -231,6 +237,7 @@ bool StepScript(InterpreterEnv& env)
             env.p2shstack = env.stack;
         }
         env.nOpCount = 0; // reset to avoid hitting limit prematurely!
+        env.altstack.clear();
         return true;
     }
 
